@@ -54,6 +54,9 @@ META = {
     "contains at least two cache-relevant ops (construct/tconstruct/run) that can interact (same class hash)",
     "assumptions": [
         "value hashing is collision-free on the generated values (C08)",
+        "environment parameter measured on every run and passed to the Lean machine: only the first k candidates of the "
+        "superset-of-lazy search are given a correct hash (k = 2 on CPython 3.12: Workflow.construct shares an id-keyed hash "
+        "memo over temporaries whose ids are reused); C30_partial holds for every k",
         "workflow constructors do not branch on inputs passed as lazy (lazy sets are drawn from {x, y})",
     ],
     "trusted": ["Lean machine WfCache/Model.lean and the concrete signature WfCache/Concrete.lean"],
@@ -229,7 +232,9 @@ def run_cases(ctx, cases, label="generated"):
         if r != refs[k]:
             ctx.tie_broken.append({"kind": "fresh-interpreter-answers-differ", "case": cases[k], "own": r, "chunked": refs[k]})
     ctx.extra["fresh_interpreters"] = ctx.extra.get("fresh_interpreters", 0) + len(sample) + min(8, len(cases))
-    ans = ctx.driver("WfCache", [wfcache.for_driver(c) for c in cases])
+    window = wfcache.superset_window(ctx.scratch)
+    ctx.extra["superset_window_measured"] = window
+    ans = ctx.driver("WfCache", [wfcache.for_driver(c, window) for c in cases])
     for k, (c, i, ref) in enumerate(zip(cases, impls, refs)):
         a = ans[k] if ans is not None else None
         if a is not None and "model" not in a:
@@ -239,6 +244,10 @@ def run_cases(ctx, cases, label="generated"):
             raise core.Infra(f"fresh interpreter failed: {ref['child-failed']}")
         model = a["model"] if a else None
         lspec = a["spec"] if a else None
+        if a is not None and (a.get("okHist") != (not set_after_memo(c)) or a.get("closureClash") != closure_clash(c)):
+            # the match rules exist twice (here and in Lean: okHist / equal source with different closure): they must agree
+            ctx.tie_broken.append({"kind": "hypothesis-predicates-disagree", "case": c, "lean": [a.get("okHist"), a.get("closureClash")],
+                                   "python": [not set_after_memo(c), closure_clash(c)]})
         if lspec is not None and lspec[-1] != ref:
             # the Lean cache-less reference must describe what a fresh interpreter does
             ctx.tie_broken.append({"kind": "lean-spec-vs-fresh-interpreter", "case": c, "lean_spec_last": lspec[-1], "fresh": ref})
@@ -271,12 +280,36 @@ def load_corpus(name):
     return [json.loads(l) for l in p.read_text().splitlines() if l.strip()]
 
 
+PINNED_FINGERPRINT = "77f584724b8dd571"  # sha256 prefix of the source of the modelled functions at the pinned commit
+
+
+def fingerprint() -> str:
+    import hashlib
+    import inspect
+
+    from pydra.compose.workflow import WorkflowTask
+    from pydra.engine.workflow import Workflow
+
+    h = hashlib.sha256()
+    for o in (Workflow.construct, Workflow.clear_cache, WorkflowTask.construct):
+        h.update(inspect.getsource(o).encode())
+    return h.hexdigest()[:16]
+
+
 def correspondence(ctx):
     core.assert_repo_loaded()
+    try:
+        fpr = fingerprint()
+    except Exception as e:  # noqa: BLE001
+        fpr = f"unavailable:{core.exc_tag(e)}"
+    ctx.extra["modelled_source_fingerprint"] = fpr
+    changed = fpr != PINNED_FINGERPRINT
+    if changed:
+        ctx.notes.append("modelled functions differ from the pinned commit: generation budget doubled")
     known = {f["id"] for f in ctx.known()}
     findings = load_corpus("findings.jsonl")
     cases = [r["case"] for r in findings] + [r["case"] for r in load_corpus("regressions.jsonl")]
-    n = ctx.pick(40, 700)
+    n = ctx.pick(40, 700) * (2 if changed else 1)
     cases += [gen_case(ctx.rng, max_ops=ctx.pick(6, 8)) for _ in range(n)]
     before = len(ctx.violations)
     run_cases(ctx, cases)
